@@ -319,6 +319,44 @@ Proof.
   apply map_ext. intros k. unfold expo. rewrite E1, E2, E3. reflexivity.
 Qed.
 
+(* ---- successive outages on one StreamManager: each restarts at attempt 0 ---- *)
+Lemma dur_seq_nojitter_params rs b0 b :
+  params (set_default b) = params (set_default b0) ->
+  no_jitter b0 = true -> bounds (set_default b0) -> attempt b = 0 ->
+  snd (dur_seq b rs) =
+    map (fun k => Dur (expo (set_default b0) (Z.of_nat k) * millisecond)) (seq 0 (length rs))
+  /\ params (set_default (fst (dur_seq b rs))) = params (set_default b0).
+Proof.
+  intros Hpar Hj Hb Ha.
+  destruct (params_inv _ _ Hpar) as (E0 & E1 & E2 & E3).
+  assert (no_jitter b = true) as Hj1.
+  { change (no_jitter b) with (no_jitter (set_default b)). rewrite E0. exact Hj. }
+  assert (bounds (set_default b)) as Hb1.
+  { unfold bounds in *. rewrite E1, E2, E3. exact Hb. }
+  split.
+  - rewrite (dur_seq_nojitter rs b Hj1 Hb1 Ha).
+    apply map_ext. intros k. unfold expo. rewrite E1, E2, E3. reflexivity.
+  - destruct (dur_seq_spec_gen rs b b 0%nat eq_refl (bounds_positive _ Hb1) ltac:(lia)) as (_ & H & _).
+    rewrite H. exact Hpar.
+Qed.
+
+Lemma outages_spec : forall ms b0 b,
+  params (set_default b) = params (set_default b0) ->
+  no_jitter b0 = true -> bounds (set_default b0) ->
+  outages b ms =
+  map (fun m => map (fun k => Dur (expo (set_default b0) (Z.of_nat k) * millisecond))
+                    (seq 0 (Z.to_nat m))) ms.
+Proof.
+  induction ms as [|m ms IH]; intros b0 b Hpar Hj Hb; [reflexivity|].
+  cbn [outages map].
+  assert (params (set_default (reset b)) = params (set_default b0)) as Hpar'.
+  { rewrite set_default_reset. unfold reset, params in *. cbn [no_jitter base factor cap]. exact Hpar. }
+  destruct (dur_seq_nojitter_params (zeros m) b0 (reset b) Hpar' Hj Hb eq_refl) as (H1 & H2).
+  destruct (dur_seq (reset b) (zeros m)) as [b1 os]. cbn [fst snd] in *.
+  rewrite H1. unfold zeros at 1. rewrite repeat_length. f_equal.
+  apply IH; assumption.
+Qed.
+
 (* ---- D22: outside the bound the int64 conversion wraps to a negative delay ---- *)
 Lemma huge_cap_negative :
   snd (dur_for_attempt (fresh true 3 7 (2 ^ 62)) 15 0) = Dur (-4204059543880551616).
